@@ -61,6 +61,7 @@ var probes = map[string]bool{
 	"candidate.startElection":       true,
 	"candidate.onVoteResult":        true,
 	"connPool.getConn":              true,
+	"connPool.doRPC":                true,
 	"storage.removeGTE":             true,
 	"Raft.setCommitIndex":           true,
 	"connPool.returnConn":           true,
